@@ -571,7 +571,7 @@ class C02(StoreSpec):
     lean_modules = ["Banyan.Props.C02", "Banyan.Tie.C02"]
     theorems = ["Banyan.C02." + t for t in [
         "resolve_isResolution", "isResolution_perm", "isResolution_unique_of_tieFree",
-        "dedupBatch_spec", "dedupBatch_blocks", "dedupBatch_legacy_counterexample",
+        "dedupBatch_spec", "dedupBatch_blocks", "dedupBatch_legacy_counterexample", "dedupBatch_legacy_partial",
         "mergeLoop_terminates", "mergeTwoBlocks_spec", "mergeStream_spec", "mergeParts_spec",
         "queryMerge_spec", "minIdx_isMinChoice", "query_isResolution",
         "version_wins_any_history", "version_wins_order_independent",
@@ -579,7 +579,7 @@ class C02(StoreSpec):
                                           "less_version_desc_tie", "merge_left_wins_tie", "merge_blocks_shape_tie",
                                           "query_replace_strict_tie", "query_less_version_desc_tie"]]
     lean_driver = "C02"
-    counts = {"quick": 2400, "thorough": 100000}
+    counts = {"quick": 2400, "thorough": 60000}
     trusted_base = [
         "Lean 4.33.0 kernel",
         "correspondence check: Go driver hooks/banyand/internal/verifdrv/mrw (+ hooks/banyand/measure/zz_verif_mrw.go) running the real "
